@@ -27,11 +27,12 @@ pub struct CfgOpts {
     pub max_window: u16,
     pub need_supported: bool,
     pub large_windows: bool,
+    pub real_panels: bool,
 }
 
 impl Default for CfgOpts {
     fn default() -> Self {
-        CfgOpts { level: Level::Any, sim_models: true, giant: true, builtin_only: false, full_window_pct: 4, max_window: 64, need_supported: true, large_windows: true }
+        CfgOpts { level: Level::Any, sim_models: true, giant: true, builtin_only: false, full_window_pct: 4, max_window: 64, need_supported: true, large_windows: true, real_panels: true }
     }
 }
 
@@ -115,7 +116,69 @@ pub fn gen_window(rng: &mut Rng, fw: u16, fh: u16, o: &CfgOpts, allow_full: bool
     (w, h, ox, oy)
 }
 
+/// panel geometries people really build (size and offset inside the controller framebuffer)
+pub const REAL_PANELS: [(ModelId, u16, u16, u16, u16); 22] = [
+    (ModelId::ST7789, 135, 240, 52, 40),
+    (ModelId::ST7789, 240, 240, 0, 0),
+    (ModelId::ST7789, 240, 240, 0, 80),
+    (ModelId::ST7789, 172, 320, 34, 0),
+    (ModelId::ST7789, 170, 320, 35, 0),
+    (ModelId::ST7789, 240, 280, 0, 20),
+    (ModelId::ST7789, 240, 320, 0, 0),
+    (ModelId::ST7735s, 80, 160, 26, 1),
+    (ModelId::ST7735s, 128, 160, 2, 1),
+    (ModelId::ST7735s, 128, 128, 2, 3),
+    (ModelId::ST7735s, 132, 162, 0, 0),
+    (ModelId::GC9107, 128, 128, 0, 32),
+    (ModelId::GC9107, 128, 160, 0, 0),
+    (ModelId::GC9A01, 240, 240, 0, 0),
+    (ModelId::ILI9341Rgb565, 240, 320, 0, 0),
+    (ModelId::ILI9341Rgb666, 240, 320, 0, 0),
+    (ModelId::ILI9342CRgb565, 320, 240, 0, 0),
+    (ModelId::ILI9486Rgb666, 320, 480, 0, 0),
+    (ModelId::ILI9488Rgb565, 320, 480, 0, 0),
+    (ModelId::ST7796, 320, 480, 0, 0),
+    (ModelId::RM67162, 240, 536, 0, 0),
+    (ModelId::ILI9488Rgb666, 320, 480, 0, 0),
+];
+
 pub fn gen_config(rng: &mut Rng, o: &CfgOpts) -> Config {
+    if o.real_panels && rng.chance(1, 8) {
+        // a real panel at its real offset; whole-screen operations only where they stay cheap
+        loop {
+            let (model, w, h, ox, oy) = *rng.pick(&REAL_PANELS);
+            let transport = match rng.below(4) {
+                0 => Transport::Spi { buf: *rng.pick(&[64u32, 256, 512, 1024, 4096]) },
+                1 => gen_transport(rng, Level::Pin, model),
+                _ => Transport::Trace(*rng.pick(&[Kind::Serial, Kind::P8, Kind::P16])),
+            };
+            if !crate::dut::pairing_compiles(model, transport) || !crate::dut::supported_today(model, transport.kind()) {
+                continue;
+            }
+            if matches!(o.level, Level::Pin) && !transport.pin_level() {
+                continue;
+            }
+            if matches!(o.level, Level::Trace) && transport.pin_level() {
+                continue;
+            }
+            return Config {
+                model,
+                transport,
+                w,
+                h,
+                ox,
+                oy,
+                orient: gen_orient(rng),
+                bgr: rng.coin(),
+                invert: rng.coin(),
+                refresh: rng.below(4) as u8,
+                rst: rng.coin(),
+                init_levels: rng.below(8) as u8,
+                clock_all_methods: rng.coin(),
+                latch_partial: rng.coin(),
+            };
+        }
+    }
     loop {
         let model = if o.builtin_only || !o.sim_models || rng.chance(2, 3) {
             *rng.pick(&BUILTIN_MODELS)
@@ -230,7 +293,8 @@ pub fn gen_colour(rng: &mut Rng) -> u32 {
             let b = rng.below(64) as u32;
             a << 12 | b << 6 | a
         }
-        4..=7 => rng.palette[rng.below(3) as usize],
+        4..=6 => rng.palette[rng.below(3) as usize],
+        7 => *rng.pick(&[0xF800u32, 0x07E0, 0x001F, 0xFFFF, 0xFFE0, 0x07FF, 0xF81F, 0x3F000, 0x00FC0, 0x0003F, 0x3FFFF, 0x3FFC0, 0x00FFF, 0x3F03F]),
         _ => rng.next_u64() as u32,
     }
 }
@@ -724,7 +788,8 @@ pub fn gen_draw_program(rng: &mut Rng, cfg: &Config, orient: Orient, o: &ProgOpt
                 Op::FillSolid { rect, c: gen_colour(rng) }
             }
             _ => {
-                if lw as u64 * lh as u64 <= budget || matches!(cfg.transport, Transport::Trace(_)) {
+                let cheap_bulk = matches!(cfg.transport, Transport::Trace(_)) || matches!(cfg.transport, Transport::Spi { buf } if buf >= 256 && lw as u64 * lh as u64 <= 160_000);
+                if lw as u64 * lh as u64 <= budget || cheap_bulk {
                     Op::Clear { c: gen_colour(rng) }
                 } else {
                     Op::FillSolid { rect: gen_rect_inside(rng, lw, lh, budget), c: gen_colour(rng) }
